@@ -1,8 +1,10 @@
 CONSTANTS
   Alphabet <- L0
   Core <- L0Core
+  Mid <- L0Core
   MaxAll = 4
-  MaxCore = 4
+  MaxMid = 5
+  MaxCore = 5
   Wrappers <- NoWrap
   MaxWrap = 0
   MaxDeep = 0
